@@ -1,6 +1,6 @@
 (* C17 — property theorems only.  Each is closed by `exact` of a lemma of C17_Proofs.v. *)
-From Coq Require Import List NArith Bool Relations.
-From Dae Require Import C17_Spec C17_Model C17_MergeSpec C17_Schema C17_Build C17_ProofsBuild C17_Proofs.
+From Coq Require Import List NArith Bool Relations Sorting.Sorted.
+From Dae Require Import C17_Spec C17_Model C17_MergeSpec C17_Paths C17_Schema C17_Build C17_ProofsBuild C17_ProofsPaths C17_ProofsGlob C17_Proofs.
 From Dae.gen Require Import Extracted_C17.
 Import ListNotations.
 Open Scope N_scope.
@@ -39,6 +39,36 @@ Theorem C17_merge_order_deterministic :
 Proof. exact C17_merge_order_proof. Qed.
 Print Assumptions C17_merge_order_deterministic.
 
+(* Include lists with globs.  Oracle contract of the directory listing: a directory has no two entries of the
+   same name.  Then filepath.Glob's model answers every pattern in lexical order (component by component,
+   bytewise), and a successful merge over readEntry's file system and unsqueezeEntries' expansion is: the
+   parent first, then for each listed pattern in order its kept matches in lexical order, recursively; a file
+   met twice (duplicate or diamond) is never accepted (NoDup of the files read). *)
+Theorem C17_glob_sorted :
+  forall listing lexists p, nodup_listing listing -> StronglySorted plt (glob listing lexists p).
+Proof. exact glob_sorted. Qed.
+Print Assumptions C17_glob_sorted.
+
+Theorem C17_glob_sound :
+  forall listing lit rest q, In q (glob_comps listing lit rest) ->
+    exists names, q = lit ++ names /\ length names = length rest /\
+      Forall2 (fun c n => pmatch c n = true) rest names /\
+      (forall k, (k < length names)%nat -> exists ns, listing (lit ++ firstn k names) = Some ns /\ In (nth k names []) ns).
+Proof. exact glob_comps_sound. Qed.
+Print Assumptions C17_glob_sound.
+
+Theorem C17_merge_order_globs :
+  forall os listing entry_dir fuel entry m vis,
+    nodup_listing listing ->
+    dfs_merge fuel (fs_of os entry_dir) (expand_of os listing entry_dir) [] entry = Ok (m, vis) ->
+    exists t, tree_root t = entry /\ resolves (fs_of os entry_dir) (expand_of os listing entry_dir) t /\
+      (forall n, sm_get m n = merged_items t n) /\ vis = rev (tree_paths t) /\ NoDup (tree_paths t) /\
+      (forall written, StronglySorted plt
+         (filter (keep os) (glob listing (fun p => negb (match os p with OMissing => true | _ => false end))
+                                (pattern_path entry_dir written)))).
+Proof. exact merge_order_globs. Qed.
+Print Assumptions C17_merge_order_globs.
+
 (* Any include cycle reachable from the entry file is refused, for every include graph. *)
 Theorem C17_cycle_rejected :
   forall fuel fs expand entry f,
@@ -48,14 +78,39 @@ Theorem C17_cycle_rejected :
 Proof. exact C17_cycle_rejected_proof. Qed.
 Print Assumptions C17_cycle_rejected.
 
-(* No file is used unless the file system marks it usable (a .dae file inside the entry directory with safe
-   permissions that parses). *)
-Theorem C17_only_dae_in_dir :
+(* No file is used unless the (abstract) file system marks it usable. *)
+Theorem C17_only_usable_files :
   forall fuel fs expand entry m vis,
     dfs_merge fuel fs expand [] entry = Ok (m, vis) ->
     forall f, In f vis -> exists ss, fs f = FFile ss.
 Proof. exact C17_only_dae_in_dir_proof. Qed.
+Print Assumptions C17_only_usable_files.
+
+(* Against the model of readEntry over what the operating system answers (symbolic links followed by the OS,
+   never resolved by dae; paths cleaned for '.', '..' as filepath.Clean does): every file read is named *.dae,
+   lies - after cleaning - in the entry configuration directory or below it, is a regular file not writable by
+   group nor accessible by others, and parses; a file whose cleaned directory is not the entry directory or
+   below it is never read, for every directory tree, include graph and expansion of patterns. *)
+Theorem C17_only_dae_in_dir :
+  forall os entry_dir fuel expand entry m vis,
+    dfs_merge fuel (fs_of os entry_dir) expand [] entry = Ok (m, vis) ->
+    forall f, In f vis ->
+      has_suffix dae_suffix f = true /\ inside entry_dir (comps f) = true /\
+      exists mode text ss, os (clean (comps f)) = OFile mode text /\ N.land mode 31 = 0 /\ parse text = POk ss.
+Proof. exact only_dae_in_dir_os. Qed.
 Print Assumptions C17_only_dae_in_dir.
+
+Theorem C17_inside_is_below :
+  forall d f, inside d f = true -> exists below, dir_of (clean f) = clean d ++ below.
+Proof. exact inside_is_below. Qed.
+Print Assumptions C17_inside_is_below.
+
+Theorem C17_outside_never_read :
+  forall os entry_dir fuel expand entry m vis f,
+    dfs_merge fuel (fs_of os entry_dir) expand [] entry = Ok (m, vis) ->
+    (forall below, dir_of (clean (comps f)) <> clean entry_dir ++ below) -> ~ In f vis.
+Proof. exact outside_never_read. Qed.
+Print Assumptions C17_outside_never_read.
 
 (* Capacity: every rule program with more match sets than the supported size is answered with an error, and
    no program - whatever its size and wherever its domain sets are (their indices are rule indices, below the
@@ -76,8 +131,8 @@ Print Assumptions C17_build_never_crashes.
    section), routing rules only where the struct takes them, and every required key - so any of these
    defects is answered with an error. *)
 Theorem C17_build_contract :
-  forall schema decodes tops secs,
-    build schema decodes tops secs = BOk ->
+  forall schema decodes tops gsid secs,
+    build schema decodes tops gsid secs = BOk ->
     (forall t, In t tops -> t_required t = true -> exists items, lookup_last secs (t_name t) None = Some items) /\
     (forall s, In s secs -> str_eqb (fst s) C17_Build.include_name = true \/
                             exists t, In t tops /\ str_eqb (t_name t) (fst s) = true) /\
@@ -119,6 +174,31 @@ Theorem C17_last_assignment_wins :
     effective_string schema sid (items ++ [GParamI p]) (gp_key p) = Some (gp_val p).
 Proof. exact last_assignment_wins. Qed.
 Print Assumptions C17_last_assignment_wins.
+
+(* The two patches of config.New.  bootstrap_resolver: an accepted configuration leaves it empty (the built-in
+   resolvers apply) or gives a value that, trimmed, parses as ip:port; any other value is an error.
+   tcp_check_http_method: a known method is kept, an unknown one becomes CONNECT. *)
+Theorem C17_bootstrap_patch :
+  forall schema decodes tops gsid secs,
+    build schema decodes tops gsid secs = BOk ->
+    bootstrap_value schema gsid secs = [] \/ decodes ty_addrport (bootstrap_value schema gsid secs) = true.
+Proof. exact bootstrap_patch. Qed.
+Print Assumptions C17_bootstrap_patch.
+
+Theorem C17_bootstrap_bad_rejected :
+  forall schema decodes tops gsid secs,
+    bootstrap_value schema gsid secs <> [] -> decodes ty_addrport (bootstrap_value schema gsid secs) = false ->
+    build schema decodes tops gsid secs <> BOk.
+Proof. exact bootstrap_bad_rejected. Qed.
+Print Assumptions C17_bootstrap_bad_rejected.
+
+Theorem C17_http_method_patch :
+  forall schema decodes gsid secs,
+    let v := global_string schema gsid secs http_method_name in
+    (decodes ty_http_method v = true -> effective_http_method schema decodes gsid secs = v) /\
+    (decodes ty_http_method v = false -> effective_http_method schema decodes gsid secs = connect_method).
+Proof. intros; split; [apply http_method_kept | apply http_method_fallback]. Qed.
+Print Assumptions C17_http_method_patch.
 
 (* Non-vacuity: a tree using every production is well formed, and its spelling parses to its denotation. *)
 Example C17_nonvacuous :
